@@ -72,9 +72,10 @@ H = {
                                          "Nonce::decode"],
                   "decode returns None (no panic) on every length 0..=ENC_LEN+1 other than ENC_LEN, bytes arbitrary; "
                   "ENC_LEN constants are the draft's", "every length, all bytes", None),
-    "lengths_b": ("wire.lengths.b", W, ["SignerPublicKey::decode", "Signature::decode", "Commitment::decode",
-                                         "SignerPrivateKeyShare::decode"],
-                  "same for the other four types", "every length, all bytes", None),
+    "lengths_b": ("wire.lengths.b", W, ["SignerPublicKey::decode", "Signature::decode"],
+                  "same for SignerPublicKey, Signature", "every length, all bytes", None),
+    "lengths_c": ("wire.lengths.c", W, ["Commitment::decode", "SignerPrivateKeyShare::decode"],
+                  "same for Commitment, SignerPrivateKeyShare", "every length, all bytes", None),
     "ident0": ("wire.ident0", W, ["*::decode"],
                "identifier 0 (and group private key 0) is rejected when every other component is valid; the same "
                "strings with a non-zero identifier are accepted (natively replayable)", "all canonical s, k", None),
@@ -135,7 +136,7 @@ H = {
                 "of size 2, made of the inputs; None iff fewer than 2 distinct identifiers; no panic",
                 "<= 2 commitments (3 is out of reach: Vec::insert with merged length)", None),
 }
-TOTALITY = [h for h, d in H.items() if d[1] in (T_, C_)] + ["lengths_a", "lengths_b", "list_badlen"]
+TOTALITY = [h for h, d in H.items() if d[1] in (T_, C_)] + ["lengths_a", "lengths_b", "lengths_c", "list_badlen"]
 
 WIRE_ALL = [h for h, d in H.items() if d[1] == W]
 # quick tier: the shared macro body is exercised on ed25519 (representative subset, sized for the 5-minute
